@@ -52,6 +52,7 @@ func (db *DB) InsertRaw(stream string, ts time.Time, dims bytemap.ByteMap, vals 
 		db.log.Tracef("Writing to wal with dims length %d: %v", len(dims), bytemap.ByteMap(dims).AsMap())
 	}
 	err := w.Write(tsd, dimsLen, dims, valsLen, vals)
+	verifPoint("insert.afterWALWrite")
 	if err != nil {
 		db.log.Error(err)
 	}
